@@ -9,6 +9,13 @@ import (
 
 // Shared helpers of the rsync harnesses (C19, C20).
 
+// verifPreferSolver asks the engine for a solver back end (engine intrinsic in
+// engine/sx/intrinsics_rsync.go; a no-op when run natively).  The rsync
+// harnesses ask for cvc5: z3's incremental mode answers "unknown" on the
+// (infeasible) "repeatedly rolled weak hash collides although the bytes
+// differ" branches at block size 2 with 4-byte targets.
+func verifPreferSolver(name string) {}
+
 // verifHashCap is the longest block the strong-hash model encodes injectively.
 const verifHashCap = 8
 
